@@ -1,11 +1,11 @@
 /-
 C02 - the floor of a reorganisation in terms of the function the CODE defines:
-`findPreviousHeaderCheckpoint` is translated from blockmanager.go on every run (Gen/Trans.lean).
+`findPreviousHeaderCheckpoint` is translated from blockmanager.go on every run (Gen/TransBM.lean).
 -/
 import Neutrino.Props.C02
 import Neutrino.Lemmas.TransBlockMgr
 namespace Neutrino.BM
-open Neutrino.Gen.Trans
+open Neutrino.Gen.TransBM
 
 /-- **`(*blockManager).findPreviousHeaderCheckpoint`** yields the height of the model's
 `findPrevCp`, whatever the genesis hash -/
